@@ -471,3 +471,165 @@ pub fn classes_of(v: &Value) -> Vec<&'static str> {
     });
     c
 }
+
+/// A small change to a value (a "neighbour" in the term space): used to generate pairs that
+/// are equal up to one detail, where comparison bugs live.
+pub fn tweak(v: &Value, pk: &mut dyn refmodel::etf::Picker) -> Value {
+    use refmodel::BigI;
+    match v {
+        Value::Int(b) => match pk.pick(5, "tw-int") {
+            0 => match b.to_i128() {
+                Some(x) if x < i128::MAX => Value::int(x + 1),
+                _ => {
+                    let mut m = b.mag.clone();
+                    m[0] ^= 1;
+                    Value::Int(BigI::from_parts(b.neg, &m))
+                }
+            },
+            1 => Value::Int(BigI::from_parts(!b.neg, &b.mag)),
+            2 => {
+                // nearest float
+                let f = b.to_i128().map(|x| x as f64).unwrap_or(1e300);
+                Value::float(f)
+            }
+            3 => {
+                let mut m = b.mag.clone();
+                if m.is_empty() {
+                    m.push(1)
+                } else {
+                    let n = m.len();
+                    m[n - 1] = m[n - 1].wrapping_add(1).max(1);
+                }
+                Value::Int(BigI::from_parts(b.neg, &m))
+            }
+            _ => {
+                let mut m = b.mag.clone();
+                m.insert(0, 0);
+                Value::Int(BigI::from_parts(b.neg, &m))
+            }
+        },
+        Value::Float(bits) => {
+            let f = f64::from_bits(*bits);
+            match pk.pick(4, "tw-float") {
+                0 => Value::Float(if f64::from_bits(bits.wrapping_add(1)).is_finite() { bits.wrapping_add(1) } else { bits.wrapping_sub(1) }),
+                1 => Value::float(-f),
+                2 if f.abs() < 1e30 => Value::Int(BigI::from_i128(f.trunc() as i128)),
+                _ => Value::float(f * 2.0 + 1.0).clone().pipe_finite(f),
+            }
+        }
+        Value::Atom(a) => match pk.pick(3, "tw-atom") {
+            0 => Value::Atom(format!("{a}a")),
+            1 if !a.is_empty() => {
+                let mut c: Vec<char> = a.chars().collect();
+                c.pop();
+                Value::Atom(c.into_iter().collect())
+            }
+            _ => Value::Atom(format!("{a}é")),
+        },
+        Value::Bits { bytes, last_bits } => match pk.pick(4, "tw-bits") {
+            0 => {
+                let mut b = bytes.clone();
+                b.push(0);
+                Value::bits(&b, *last_bits)
+            }
+            1 if !bytes.is_empty() => Value::bits(bytes, if *last_bits == 8 { 7 } else { last_bits + 1 }),
+            2 if !bytes.is_empty() => {
+                let mut b = bytes.clone();
+                let n = b.len();
+                b[n - 1] ^= 0x80;
+                Value::bits(&b, *last_bits)
+            }
+            _ => Value::bits(&[bytes.as_slice(), &[0x80]].concat(), 1),
+        },
+        Value::Tuple(el) => {
+            if el.is_empty() || pk.pick(3, "tw-tuple") == 0 {
+                let mut e = el.clone();
+                e.push(Value::int(0));
+                Value::Tuple(e)
+            } else {
+                let i = pk.pick(el.len(), "tw-idx");
+                let mut e = el.clone();
+                e[i] = tweak(&e[i], pk);
+                Value::Tuple(e)
+            }
+        }
+        Value::List { elems, tail } => match pk.pick(4, "tw-list") {
+            0 => {
+                let mut e = elems.clone();
+                e.push(Value::int(0));
+                Value::List { elems: e, tail: tail.clone() }
+            }
+            1 if tail.is_none() && !elems.is_empty() => Value::cons_list(elems.clone(), Value::int(0)),
+            2 if tail.is_some() => Value::List { elems: elems.clone(), tail: None },
+            _ if !elems.is_empty() => {
+                let i = pk.pick(elems.len(), "tw-idx");
+                let mut e = elems.clone();
+                e[i] = tweak(&e[i], pk);
+                Value::cons_list(e, tail.as_ref().map(|t| (**t).clone()).unwrap_or(Value::nil()))
+            }
+            _ => Value::list(vec![Value::nil()]),
+        },
+        Value::Map(m) => {
+            if m.is_empty() {
+                return Value::Map(vec![(Value::int(0), Value::int(0))]);
+            }
+            let i = pk.pick(m.len(), "tw-idx");
+            let mut e = m.clone();
+            if pk.pick(2, "tw-map") == 0 {
+                e[i].1 = tweak(&e[i].1, pk);
+            } else {
+                e[i].0 = tweak(&e[i].0, pk);
+            }
+            Value::Map(dedupe_map(e, false))
+        }
+        Value::Pid { node, id, serial, creation } => match pk.pick(4, "tw-pid") {
+            0 => Value::Pid { node: node.clone(), id: id.wrapping_add(1), serial: *serial, creation: *creation },
+            1 => Value::Pid { node: node.clone(), id: *id, serial: serial.wrapping_add(1), creation: *creation },
+            2 => Value::Pid { node: node.clone(), id: *id, serial: *serial, creation: creation.wrapping_add(1) },
+            _ => Value::Pid { node: format!("{node}x"), id: *id, serial: *serial, creation: *creation },
+        },
+        Value::Port { node, id, creation } => match pk.pick(3, "tw-port") {
+            0 => Value::Port { node: node.clone(), id: id.wrapping_add(1), creation: *creation },
+            1 => Value::Port { node: node.clone(), id: *id, creation: creation.wrapping_add(1) },
+            _ => Value::Port { node: format!("{node}x"), id: *id, creation: *creation },
+        },
+        Value::Ref { node, creation, ids } => match pk.pick(3, "tw-ref") {
+            0 => {
+                let mut i2 = ids.clone();
+                i2.push(0);
+                Value::Ref { node: node.clone(), creation: *creation, ids: i2 }
+            }
+            1 => Value::Ref { node: node.clone(), creation: creation.wrapping_add(1), ids: ids.clone() },
+            _ => Value::Ref { node: format!("{node}x"), creation: *creation, ids: ids.clone() },
+        },
+        Value::ExportFun { module, function, arity } => match pk.pick(3, "tw-exp") {
+            0 => Value::ExportFun { module: module.clone(), function: function.clone(), arity: arity.wrapping_add(1) },
+            1 => Value::ExportFun { module: format!("{module}x"), function: function.clone(), arity: *arity },
+            _ => Value::ExportFun { module: module.clone(), function: format!("{function}x"), arity: *arity },
+        },
+        Value::Fun { arity, uniq, index, module, old_index, old_uniq, pid, free } => {
+            let mut f = (*arity, *uniq, *index, module.clone(), *old_index, *old_uniq, pid.clone(), free.clone());
+            match pk.pick(6, "tw-fun") {
+                0 => f.0 = f.0.wrapping_add(1),
+                1 => f.1[15] ^= 1,
+                2 => f.2 = f.2.wrapping_add(1),
+                3 => f.4 = f.4.wrapping_add(1),
+                4 => f.7.push(Value::int(0)),
+                _ => f.5 = f.5.wrapping_add(1),
+            }
+            Value::Fun { arity: f.0, uniq: f.1, index: f.2, module: f.3, old_index: f.4, old_uniq: f.5, pid: f.6, free: f.7 }
+        }
+    }
+}
+
+trait PipeFinite {
+    fn pipe_finite(self, fallback: f64) -> Value;
+}
+impl PipeFinite for Value {
+    fn pipe_finite(self, fallback: f64) -> Value {
+        match self {
+            Value::Float(b) if f64::from_bits(b).is_finite() => Value::Float(b),
+            _ => Value::float(fallback / 2.0),
+        }
+    }
+}
